@@ -21,10 +21,10 @@ vars == <<ops, pos, db, pend, remain, lastKey, out>>
 OpSet == {[o |-> x] : x \in {"aux", "lua", "resize", "modaux"}}
          \cup {[o |-> x, v |-> v] : x \in {"exms", "exs", "idle", "freq"}, v \in Vals}
          \cup {[o |-> "sel", v |-> d] : d \in Dbs}
-         \cup {[o |-> "key", v |-> id, parts |-> p] : id \in 1..MaxOps, p \in {1, 2, 3}}
+         \cup {[o |-> "key", v |-> 0, parts |-> p] : p \in {1, 2, 3}}                 \* (the id is the position, see Init)
 NoPend == [ex |-> 0, idle |-> 0, freq |-> 0]
-Init == /\ ops \in UNION {[1..n -> OpSet] : n \in 0..MaxOps}
-        /\ \A i \in 1..Len(ops) : ops[i].o = "key" => ops[i].v = i          \* key ids = position: distinct
+Renumber(raw) == [i \in 1..Len(raw) |-> IF raw[i].o = "key" THEN [raw[i] EXCEPT !.v = i] ELSE raw[i]]   \* key ids = position: distinct
+Init == /\ ops \in {Renumber(raw) : raw \in UNION {[1..n -> OpSet] : n \in 0..MaxOps}}
         \* attribute opcodes directly precede a key, as a Redis server writes them (expire, idle, freq, then the key)
         /\ \A i \in 1..Len(ops) : ops[i].o \in {"exms", "exs", "idle", "freq"} => (i < Len(ops) /\ ops[i+1].o \in {"exms", "exs", "idle", "freq", "key"})
         /\ pos = 1 /\ db = 0 /\ pend = NoPend /\ remain = 0 /\ lastKey = Rec("none", 0, 0, 0, 0, 0, 0) /\ out = <<>>
